@@ -89,8 +89,6 @@ theorem refines_spec_inv {s s' : G} {l : Label} (hi : Inv s) (hx : excluded s l 
   cases l with
   | lnLookup k =>
     simp only [gstep] at hs
-    split at hs
-    · cases hs
     · cases hp : s.pool k with
       | some e =>
         rw [hp] at hs; cases hs
@@ -139,7 +137,7 @@ theorem refines_spec_inv {s s' : G} {l : Label} (hi : Inv s) (hx : excluded s l 
     · rename_i hg
       cases hs
       have hE := hi.ent e hg.1
-      obtain ⟨hm, herr, _, _⟩ := ent_failing_facts hE hg.2.1
+      obtain ⟨hm, herr, _, _⟩ := ent_failing_facts hE hg.2
       have hp := pool_of_inPool hm
       have hv := (ent_failed_facts hE herr).2.1
       simp only [specLabel]
@@ -154,8 +152,6 @@ theorem refines_spec_inv {s s' : G} {l : Label} (hi : Inv s) (hx : excluded s l 
     · cases hs
   | lsLookup k =>
     simp only [gstep] at hs
-    split at hs
-    · cases hs
     · cases hp : s.pool k with
       | some e =>
         rw [hp] at hs; cases hs
@@ -178,13 +174,9 @@ theorem refines_spec_inv {s s' : G} {l : Label} (hi : Inv s) (hx : excluded s l 
         rw [abs_bumpVal, abs_alloc hi]; congr 1
   | lsRead e v =>
     simp only [gstep] at hs
-    simp only [excluded] at hx
     split at hs
-    · rw [hx] at hs
-      simp only [Bool.false_eq_true, if_false] at hs
-      cases hs
-      rw [abs_updEnt_same s e _ (by simp [entryState])]
-      exact SpecStep.tau _
+    · split at hs <;> cases hs <;>
+        (rw [abs_updEnt_same s e _ (by simp [entryState])]; exact SpecStep.tau _)
     · cases hs
   | del1 k ho =>
     cases ho with
@@ -194,7 +186,7 @@ theorem refines_spec_inv {s s' : G} {l : Label} (hi : Inv s) (hx : excluded s l 
       split at hs
       · rename_i hg
         cases hs
-        obtain ⟨_, hh, hpos, hk⟩ := hg
+        obtain ⟨hh, hpos, hk⟩ := hg
         have hE := hi.ent h hh
         obtain ⟨hm, _, _, _, hv, _, _, _, _⟩ := ent_holder_facts hE hpos
         obtain ⟨_, _, _, hr1⟩ := ent_holder_mapped hE hpos
@@ -239,28 +231,7 @@ theorem refines_spec_inv {s s' : G} {l : Label} (hi : Inv s) (hx : excluded s l 
       rw [abs_updEnt_same s e _ (by simp [entryState])]
       exact SpecStep.tau _
     · cases hs
-  | refs1 k =>
-    simp only [gstep] at hs
-    split at hs
-    · cases hs
-      rw [abs_updEnt_same s _ _ (by simp [entryState])]
-      exact SpecStep.tau _
-    · cases hs; exact SpecStep.tau _
-  | refs2 e =>
-    simp only [gstep] at hs
-    split at hs
-    · cases hs
-      rw [abs_updEnt_same s e _ (by simp [entryState])]
-      exact SpecStep.tau _
-    · cases hs
-  | rangeBegin =>
-    simp only [gstep] at hs
-    cases hs
-    exact SpecStep.tau _
-  | rangeEnd =>
-    simp only [gstep] at hs
-    split at hs
-    · cases hs; exact SpecStep.tau _
-    · cases hs
+  | refs k => simp only [gstep] at hs; cases hs; exact SpecStep.tau _
+  | range => simp only [gstep] at hs; cases hs; exact SpecStep.tau _
 
 end CaddyModel.C04
